@@ -21,6 +21,8 @@ func authzCfg(c *Ctx) ExploreConfig {
 }
 
 func runC17(c *Ctx) {
+	defer checkPARSessionOrder(c, "C17.R7")
+	defer checkConfigGetters(c, "C17.R6", "EnforcePushedAuthorize", "GetPushedAuthorizeContextLifespan", "GetPushedAuthorizeRequestURIPrefix")
 	c17Use(c)
 	c17Merge(c)
 	c17Push(c)
